@@ -689,3 +689,31 @@ impl<T: Default> Model for savefile::AbiRemoved<T> {
         MV::unit()
     }
 }
+
+// ---- recursive definitions (spec/Wire.tla LibEquiv "RecTree" / "RecList") -------------------------------------------
+#[derive(savefile_derive::Savefile, Debug, Clone, PartialEq, Default)]
+pub struct RecTree {
+    pub v: u8,
+    pub kids: Vec<RecTree>,
+}
+#[derive(savefile_derive::Savefile, Debug, Clone, PartialEq, Default)]
+pub struct RecList {
+    pub v: u16,
+    pub next: Option<Box<RecList>>,
+}
+impl Model for RecTree {
+    fn from_model(v: &MV) -> Self {
+        RecTree { v: u8::from_model(&v.vs[0]), kids: v.vs[1].vs.iter().map(RecTree::from_model).collect() }
+    }
+    fn to_model(&self) -> MV {
+        MV::l(vec![self.v.to_model(), MV::l(self.kids.iter().map(|k| k.to_model()).collect())])
+    }
+}
+impl Model for RecList {
+    fn from_model(v: &MV) -> Self {
+        RecList { v: u16::from_model(&v.vs[0]), next: if v.vs[1].n == 0 { None } else { Some(Box::new(RecList::from_model(&v.vs[1].vs[0]))) } }
+    }
+    fn to_model(&self) -> MV {
+        MV::l(vec![self.v.to_model(), match &self.next { None => MV::none(), Some(b) => MV::some(b.to_model()) }])
+    }
+}
